@@ -24,9 +24,52 @@ def Dm(i, k, m, org):
     return Poly.atom(("D", i.key(), k.key(), m.key(), vkey(org)))
 
 
-def hooks():
-    return {SP + "bsplev_single_f64": lambda ev, vals, e: B(vals[1], vals[2], vals[4]),
-            SP + "bspldnev_single_f64": lambda ev, vals, e: Dm(vals[1], vals[2], vals[4], vals[5])}
+def indexed_before(body, target, name="t"):
+    """Is `name[..]` evaluated unconditionally (not under `&&`/`||` right operands, branches, arms, closures or loop bodies) before `target` is reached, in
+    evaluation order? Then the slice is known to be non-empty at `target` (the index would have panicked otherwise)."""
+    seen = []
+
+    def is_t(x):
+        while x.get("k") in ("ref", "un", "mcall") and (x.get("k") != "mcall" or x["m"] in ("as_slice", "as_ref", "deref")):
+            x = x["e"] if x["k"] != "mcall" else x["recv"]
+        return x.get("k") == "path" and x.get("name") == name
+
+    def visit(e, cond):
+        if e is target:
+            return True
+        k = e.get("k")
+        if k == "bin" and e.get("op") in ("And", "Or"):
+            return visit(e["l"], cond) or visit(e["r"], True)
+        if k == "if":
+            c = e["c"]["init"] if e["c"].get("k") == "letx" else e["c"]
+            return visit(c, cond) or visit(e["t"], True) or ("e" in e and visit(e["e"], True))
+        if k == "match":
+            return visit(e["e"], cond) or any(visit(a["body"], True) or ("guard" in a and visit(a["guard"], True)) for a in e["arms"])
+        if k in ("closure", "for", "while", "loop"):
+            return any(visit(c_, True) for c_ in hir.children(e))
+        for c_ in hir.children(e):
+            if visit(c_, cond):
+                return True
+        if k == "index" and not cond and is_t(e["e"]):
+            seen.append(e)
+        return False
+    found = visit(body, False)
+    return found and bool(seen)
+
+
+def hooks(facts=None):
+    h = {SP + "bsplev_single_f64": lambda ev, vals, e: B(vals[1], vals[2], vals[4]),
+         SP + "bspldnev_single_f64": lambda ev, vals, e: Dm(vals[1], vals[2], vals[4], vals[5])}
+    if facts is not None:
+        def last(ev, vals, e):
+            # `t.last()` where t[..] has already been indexed unconditionally: the slice is not empty, so this is Some(&t[len - 1])
+            for r in facts.all_fns():
+                if r["fn"].startswith(SP) and any(x is e for x in hir.walk(r["body"])):
+                    if vkey(vals[0]) == vkey(TT) and indexed_before(r["body"], e):
+                        return Sym("ctor", "Some", T(LEN() - ONE))
+            raise Unsupported("last() on a slice not known to be non-empty at line %s" % e.get("ln"))
+        h["core::slice::<impl [T]>::last"] = last
+    return h
 
 
 def cond(c, pol=True):
@@ -67,7 +110,7 @@ def _run(ck, facts, tier):
     for orgname, org in (("None", NONE), ("Some", Sym("ctor", "Some", Poly.atom("o")))):
         orgk = K if orgname == "None" else Poly.atom("o")
         try:
-            got = cel.Ev(facts, hooks=hooks()).apply_fn(fn, [X, I, K, TT, org], 0)
+            got = cel.Ev(facts, hooks=hooks(facts)).apply_fn(fn, [X, I, K, TT, org], 0)
         except Unsupported as e:
             ck.fail(r1, "bsplev[org_k=%s]" % orgname, "rule could not be established (%s)" % e, where)
             continue
@@ -108,7 +151,7 @@ def _run(ck, facts, tier):
         orgk = K if orgname == "None" else Poly.atom("o")
         SOME = Sym("ctor", "Some", orgk)
         try:
-            got = cel.Ev(facts, hooks=hooks()).apply_fn(fn, [X, I, K, TT, M, org], 0)
+            got = cel.Ev(facts, hooks=hooks(facts)).apply_fn(fn, [X, I, K, TT, M, org], 0)
         except Unsupported as e:
             ck.fail(r3, "bspldnev[org_k=%s]" % orgname, "rule could not be established (%s)" % e, where)
             continue
